@@ -2,7 +2,7 @@
    Only statements, `exact` of lemmas proved in Proofs/{BinomP,ProjectP}.v, Print Assumptions, examples.
    The f64 kernel (exp/ln-gamma binomial) is compared with `hyp` by the correspondence check; the
    theorems are about exact arithmetic. *)
-From Sfs Require Import Index ArrayM Scalar Spectrum Project IndexP ArrayP BinomP ProjectP.
+From Sfs Require Import Index ArrayM Scalar Spectrum Project IndexP ArrayP BinomP ProjectP ProjectLinP.
 
 Close Scope Qc_scope. Close Scope Q_scope. Open Scope nat_scope.
 
@@ -104,3 +104,20 @@ Theorem C03_project_of_histogram : forall sh to keys y, positive_shape sh -> key
   forall k', inb to k' = true -> q_getd y k' = qsum (map (fun key => project_value (dec sh) key (dec to) k') keys).
 Proof. exact project_hist. Qed.
 Print Assumptions C03_project_of_histogram.
+
+(* linearity in the values: every entry is sum_k x[k] * (a product that does not depend on x), so scaling the spectrum
+   scales the projection, the projection of a sum is the sum of the projections, and acceptance depends on the shapes only *)
+Theorem C03_project_scale : forall c (x : spectrum) to y, wf x -> project x to = inl y -> project (scale c x) to = inl (scale c y).
+Proof. exact project_scale. Qed.
+Print Assumptions C03_project_scale.
+
+Theorem C03_project_add : forall (x x' : spectrum) to y y', wf x -> wf x' -> ashape x = ashape x' ->
+  project x to = inl y -> project x' to = inl y' -> project (addsp x x') to = inl (addsp y y').
+Proof. exact ProjectLinP.project_add. Qed.
+Print Assumptions C03_project_add.
+
+Theorem C03_project_error_shape_only : forall (x x' : spectrum) to e, wf x -> wf x' -> ashape x = ashape x' ->
+  project x to = inr e -> project x' to = inr e.
+Proof. exact project_error_shape_only. Qed.
+Print Assumptions C03_project_error_shape_only.
+
